@@ -65,7 +65,7 @@ func checkC14(e *Engine, r *Report) {
 	for _, p := range c14PluginPkgs {
 		addHandlers(p, "plugin")
 	}
-	r.MinInstances("handler entry points", nh, 15)
+	r.MinInstances("handler entry points", nh, 8)
 	if up := e.Fn(pkgRM, "nriPlugin.UpdateContainer"); up != nil {
 		// (p, ctx, pod, container, res): the resources of an update may be absent
 		c.nilableParams[up] = map[int]bool{4: true}
@@ -95,7 +95,7 @@ func checkC14(e *Engine, r *Report) {
 		}
 		return scope[i].Pos() < scope[j].Pos()
 	})
-	r.MinInstances("functions reachable from handlers", len(scope), 600)
+	r.MinInstances("functions reachable from handlers", len(scope), 300)
 
 	// propagate nilable parameters two levels: a nilable value passed on as an argument
 	for round := 0; round < 3; round++ {
@@ -158,7 +158,7 @@ func checkC14(e *Engine, r *Report) {
 	// one discharged obligation per function that had source-derived dereferences, for the evidence
 	r.add(&Obligation{Key: "R4:examined", Rule: "R4 nil-safety", What: fmt.Sprintf("%d dereferences of values from known nil sources examined in %d functions; %d reachable while nil", examined, len(scope), nviol),
 		Pos: "-", Verdict: Discharged, Nontrivial: true})
-	r.MinInstances("source-derived dereferences examined", examined, 150)
+	r.MinInstances("source-derived dereferences examined", examined, 75)
 	// record the guarded ones individually too (discharged obligations), so that evidence shows what was decided
 	for _, fn := range scope {
 		for _, ds := range c.derefSites(fn) {
@@ -200,7 +200,7 @@ func checkC14(e *Engine, r *Report) {
 					Pos: e.InstrPos(bs.In), Fn: FnName(fn), Verdict: map[bool]Verdict{true: Discharged, false: Violated}[ok], Witness: w, Nontrivial: true})
 			}
 		}
-		r.MinInstances("constant index/slice sites on parsed input examined", nb, 4)
+		r.MinInstances("constant index/slice sites on parsed input examined", nb, 2)
 	}
 
 	// ---- S7 -----------------------------------------------------------------------
